@@ -275,7 +275,7 @@ def main_c23(run):
                     run.cov["traces_validated_against_impl"] += 1
     # longer bodies (numeric / named escapes, line continuations): spec verdict via TLC's file mode
     from .reader import file_validate
-    pieces = ["\\x41", "\\x4", "\\xg1", "\\101", "\\18", "\\0", "\\N{DASH}", "\\N{dash}", "\\N{NOPE}", "\\N{",
+    pieces = ["\\x41", "\\x4", "\\xg1", "\\101", "\\18", "\\0", "\\N{BULLET}", "\\N{EN DASH}", "\\N{dash}", "\\N{NOPE}", "\\N{",
               "\\u00e9", "\\u00e", "\\U0001F600", "\\U00110000", "\\\n", "\\\r\n", "é", "\\'", "\\\"", "\\\\", "{", "}",
               "a", " ", "\n", "\r", "\r\n", "\\a\\b\\f\\n\\r\\t\\v", "\\q", "\\z", "\\8", "\\N", "\\u", "\\U", "\\x"]
     texts = []
@@ -443,7 +443,7 @@ FVARS = {"x": 5, "y": "ab", "z": 3.14159, "w": 8, "n": None, "lst": [1, 2], "neg
 # (hy source, python source) of field expressions
 FEXPR = [("x", "x"), ("y", "y"), ("z", "z"), ("n", "n"), ("lst", "lst"), ("neg", "neg"), ("(+ x 1)", "(x + 1)"),
          ("(get lst 0)", "lst[0]"), ('"q"', '"q"'), ("(.upper y)", "y.upper()"), ("[x y]", "[x, y]")]
-FLIT = [("a", "a"), (" ", " "), ("{{", "{{"), ("}}", "}}"), ("\\N{DASH}", "\\N{DASH}"), ("\\n", "\\n"), ("é", "é"),
+FLIT = [("a", "a"), (" ", " "), ("{{", "{{"), ("}}", "}}"), ("\\N{BULLET}", "\\N{BULLET}"), ("\\N{NO SUCH NAME}", "\\N{NO SUCH NAME}"), ("\\n", "\\n"), ("é", "é"),
         ("\\x41", "\\x41"), (":", ":"), ("!", "!"), ("=", "="), ("\\\\", "\\\\")]
 FSPEC = ["", ">5", "^8", "<6", ".2f", "03d", "+", "x", "s", ">{w}", "{w}", "0{w}", "^{w}.{x}", "{w}{w}", "é>4", ","]
 
